@@ -380,9 +380,35 @@ func runC02(r *simkit.Run) {
 			for _, s := range sh.Shares {
 				ids = append(ids, s.IdentityPreimage)
 			}
-			checkTrigger(ids, "key-shares-message", head, false)
+			// A shares message is the (possibly retried: SendMessage retries with back-off) send
+			// for a trigger that went over the trigger channel; the release condition was judged
+			// there, against the state of that moment. Only identities that never were on the
+			// trigger channel are judged here.
+			var fresh [][]byte
+			for _, id := range ids {
+				wasTriggered := false
+				for _, o := range seen {
+					for _, x := range o.ids {
+						if bytes.Equal(x, id) {
+							wasTriggered = true
+						}
+					}
+				}
+				if !wasTriggered {
+					fresh = append(fresh, id)
+				}
+			}
+			for i := 1; i < len(ids); i++ {
+				if bytes.Compare(ids[i-1], ids[i]) >= 0 {
+					r.Fail("identities-not-sorted-distinct", "key-shares-message", "share identities are not strictly increasing: %x", ids)
+				}
+			}
+			if len(fresh) > 0 {
+				r.Probe("shares-without-earlier-trigger")
+				checkTrigger(fresh, "key-shares-message", head, false)
+			}
 			st := sets[int64(sh.Eon)]
-			if st == nil || !st.member || !(st.hasResult && st.success) {
+			if st == nil || !st.member || (len(fresh) > 0 && !(st.hasResult && st.success)) {
 				r.Fail("share-for-wrong-set", "key-shares-message", "key shares published for keyper set %d which the node does not belong to / has no successful DKG", sh.Eon)
 			}
 			for _, id := range ids {
